@@ -5,8 +5,6 @@ package env
 
 import (
 	"crypto/ecdsa"
-	"crypto/elliptic"
-	"crypto/rand"
 	"fmt"
 	"io/ioutil"
 	"math/big"
@@ -49,6 +47,7 @@ type Env struct {
 	Crypt  crypto_base.CryptoClient
 	RootTx *pb.Transaction
 	Root   *pb.InternalBlock
+	Miner  string // address of the key that signs the demo blocks
 	key    *ecdsa.PrivateKey
 }
 
@@ -65,7 +64,7 @@ func New(withState bool, edit func(root *pb.Transaction)) *Env {
 	lctx.EnvCfg.ChainDir = e.Dir
 	e.Ledger, err = ledger_pkg.CreateLedger(lctx, genesisConf)
 	Must(err)
-	e.RootTx, err = txn.GenerateRootTx([]byte(`{"version":"1","consensus":{"miner":"0x0"},"predistribution":[{"address":"` + Bob + `","quota":"10000000"},{"address":"` + Alice + `","quota":"20000000"}],"maxblocksize":"128","period":"5000","award":"1000"}`))
+	e.RootTx, err = txn.GenerateRootTx([]byte(`{"version":"1","consensus":{"miner":"0x0"},"predistribution":[{"address":"` + Bob + `","quota":"10000000"},{"address":"` + Alice + `","quota":"20000000"}],"maxblocksize":"128","period":"5000","award":"1000000"}`))
 	Must(err)
 	if edit != nil {
 		edit(e.RootTx)
@@ -77,7 +76,10 @@ func New(withState bool, edit func(root *pb.Transaction)) *Env {
 	}
 	e.Crypt, err = crypto_client.CreateCryptoClient(crypto_client.CryptoTypeDefault)
 	Must(err)
-	e.key, _ = ecdsa.GenerateKey(elliptic.P256(), rand.Reader)
+	e.key, err = e.Crypt.GenerateKeyBySeed([]byte("demo-miner-seed-0123456789abcdef"))
+	Must(err)
+	e.Miner, err = e.Crypt.GetAddressFromPublicKey(&e.key.PublicKey)
+	Must(err)
 	if withState {
 		sctx, err := context.NewStateCtx(econf, "xuper", e.Ledger, e.Crypt)
 		Must(err)
@@ -107,15 +109,27 @@ func (e *Env) BobSpendsGenesisOutput(offset int32, toAlice int64, nonce string) 
 	return tx
 }
 
+// Accepts runs the checks the miner applies to a received block before confirming it
+// (ProcBlock's IsValidTx loop and batchConfirmBlock's VerifyBlock; consensus aside).
+func (e *Env) Accepts(b *pb.InternalBlock) bool {
+	for i, tx := range b.Transactions {
+		if !e.Ledger.IsValidTx(i, tx, b) {
+			return false
+		}
+	}
+	ok, _ := e.Ledger.VerifyBlock(b, "demo")
+	return ok
+}
+
 // Block formats a block (coinbase count ncb first, then txs) on top of pre.
 func (e *Env) Block(pre []byte, ncb int, tag string, txs ...*pb.Transaction) *pb.InternalBlock {
 	list := []*pb.Transaction{}
 	for i := 0; i < ncb; i++ {
-		a, _ := txn.GenerateAwardTx("miner", "1000000", []byte(fmt.Sprintf("%s-%d", tag, i)))
+		a, _ := txn.GenerateAwardTx(e.Miner, "1000000", []byte(fmt.Sprintf("%s-%d", tag, i)))
 		list = append(list, a)
 	}
 	list = append(list, txs...)
-	b, err := e.Ledger.FormatBlock(list, []byte("miner"), e.key, time.Now().UnixNano(), 0, 0, pre, nil)
+	b, err := e.Ledger.FormatBlock(list, []byte(e.Miner), e.key, time.Now().UnixNano(), 0, 0, pre, nil)
 	Must(err)
 	return b
 }
@@ -123,6 +137,6 @@ func (e *Env) Block(pre []byte, ncb int, tag string, txs ...*pb.Transaction) *pb
 func (e *Env) Show(tag string) {
 	b, _ := e.State.GetBalance(Bob)
 	a, _ := e.State.GetBalance(Alice)
-	m, _ := e.State.GetBalance("miner")
+	m, _ := e.State.GetBalance(e.Miner)
 	fmt.Printf("%-28s bob=%s alice=%s miner=%s reported-total=%s\n", tag, b, a, m, e.State.GetTotal())
 }
